@@ -64,6 +64,9 @@ def _source_kind(mod, call: ast.Call) -> str | None:
         return "builtin-hash"
     if p == "id" and len(call.args) == 1:
         return "identity"
+    if isinstance(call.func, ast.Attribute) and call.func.attr == "seed" and not call.keywords and \
+            (not call.args or (len(call.args) == 1 and isinstance(call.args[0], ast.Constant) and call.args[0].value is None)):
+        return "reseed-entropy"
     if full in ("random.Random", "random.SystemRandom", "numpy.random.default_rng", "numpy.random.RandomState") or p.endswith("SystemRandom"):
         if p.endswith("SystemRandom"):
             return "unseedable-rng"
@@ -207,6 +210,10 @@ def rule_sources(ctx: Ctx) -> None:
             ctx.ob("C03-1", "G7", fn, c, ok,
                    "builtin hash() is process-randomised for str/bytes (PYTHONHASHSEED); outside __hash__ it must not decide placement, order or "
                    f"statistics — `{unparse(c)}` in {fn.qual}" + ("" if ok else ": use a hashlib-based family with an explicit seed"))
+            continue
+        if k == "reseed-entropy":
+            ctx.ob("C03-1", "G7", fn, c, False, f"`{unparse(c)}` in {fn.qual} re-seeds a generator from OS entropy (`seed()` without a value): every draw after it differs "
+                   "from run to run although the model was built with a seed")
             continue
         if k == "unseedable-rng":
             # acceptable only as `param or random.Random()` fallback
@@ -525,7 +532,16 @@ def rule_process_global_state(ctx: Ctx) -> None:
     ctx.floor("C03-4", 5)
 
 
+def rule_dependencies(ctx: Ctx) -> None:
+    """C03-5 (dependency clause on C04-4): what reset() replays is a snapshot taken at schedule time and every replay builds fresh events
+    from copies — otherwise a handler that mutates an event's metadata changes the model that the next run of the same Simulation executes,
+    and "same model, same seeds" no longer gives the same deliveries."""
+    from .c04 import replay_snapshot_rules
+    replay_snapshot_rules(ctx, "C03-5")
+
+
 def run(ctx: Ctx) -> None:
+    ctx.guarded(rule_dependencies)
     ctx.guarded(rule_sources)
     ctx.guarded(rule_set_iteration)
     ctx.guarded(rule_counter_reset_and_context)
@@ -535,6 +551,8 @@ def run(ctx: Ctx) -> None:
 CS_ = "happysimulator/components/datastore/cached_store.py"
 EP_ = "happysimulator/components/datastore/eviction_policies.py"
 MUTANTS = [
+    ("sampled-lru-clear-reseeds-from-entropy", EP_, "        self._access_times.clear()\n        self._clock = 0\n", "        self._access_times.clear()\n        self._clock = 0\n        self._rng.seed()\n", "C03-1"),
+    ("replay-spec-aliases-live-metadata", "happysimulator/core/simulation.py", "(e.time, e.event_type, e.target, e.daemon, dict(meta))", "(e.time, e.event_type, e.target, e.daemon, meta)", "C03-5"),
     ("cms-hash-memoised", "happysimulator/sketching/count_min_sketch.py", "    def _hash(self, item: T, row: int) -> int:", "    @functools.lru_cache(maxsize=None)\n    def _hash(self, item: T, row: int) -> int:", "C03-4"),
     ("global-counter-rebased-to-floor", "happysimulator/core/event.py", "    _global_event_counter = count(max(_global_event_counter.__next__(), floor))", "    _global_event_counter = count(floor)", "C03-3"),
     ("zipf-falls-back-to-global-rng", "happysimulator/distributions/zipf.py", "        self._rng = random.Random(seed)", "        self._rng = random.Random(seed) if seed else random", "C03-4"),
